@@ -464,8 +464,8 @@ pub fn run_script(script: &Value) -> Value {
                 // 1-3 adds per entity, interleaved (the entity is revisited after others have got their
                 // entries; runs of adds for one entity occur too): the value recorded is the one that
                 // arrived first, carrying the sum
-                let mut c = ChangeSet::<Amt>::new();
                 let mut first: Vec<(u32, u32, u32)> = vec![];        // (id, cid of the first add, sum)
+                let mut pairs: Vec<(Entity, Amt)> = vec![];
                 let rounds = [1u32, 2, 3];
                 for r in 0..3u32 {
                     for (pos, &id) in ids.iter().enumerate() {
@@ -478,10 +478,33 @@ pub fn run_script(script: &Value) -> Value {
                                 Some(f) => f.2 += a.val,
                                 None => first.push((id, a.cid, a.val)),
                             }
-                            c.add(ent_for(&s.world, id), a);
+                            pairs.push((ent_for(&s.world, id), a));
                         }
                     }
                 }
+                // the set is filled by add, by one extend on the empty set, by collect, or by collect + extend
+                let c: ChangeSet<Amt> = match (s.next_cid + k as u32) % 4 {
+                    0 => {
+                        let mut c = ChangeSet::new();
+                        for (e, a) in pairs {
+                            c.add(e, a);
+                        }
+                        c
+                    }
+                    1 => {
+                        let mut c = ChangeSet::new();
+                        c.extend(pairs);
+                        c
+                    }
+                    2 => pairs.into_iter().collect(),
+                    _ => {
+                        let cut = pairs.len() / 2;
+                        let rest = pairs.split_off(cut);
+                        let mut c: ChangeSet<Amt> = pairs.into_iter().collect();
+                        c.extend(rest);
+                        c
+                    }
+                };
                 for &id in &ids {
                     if let Some(f) = first.iter().find(|f| f.0 == id) {
                         vals.push(json!([id, [f.1, f.2]]));
